@@ -35,8 +35,17 @@ wt = tempfile.mkdtemp(prefix="wt_eval_")
 os.rmdir(wt)
 res = {"name": name, "at": time.strftime("%Y-%m-%d %H:%M:%S"), "base": a.base}
 try:
-    rc, out = sh(["git", "-C", "/repo", "worktree", "add", "-q", "--detach", wt, a.base])
+    # base "REV" or "REV;path@oldrev[;path@oldrev...]": the tree of REV with the named files taken from an older revision
+    # (for a patch written against a file that a later fix: commit rewrote; only used when none of the checks run
+    # below looks at what that fix repaired)
+    parts = a.base.split(";")
+    rc, out = sh(["git", "-C", "/repo", "worktree", "add", "-q", "--detach", wt, parts[0]])
     assert rc == 0, out
+    for spec in parts[1:]:
+        path, rev = spec.split("@")
+        rc, out = sh(["git", "checkout", rev, "--", path], cwd=wt)
+        assert rc == 0, out
+        rc, out = sh(["git", "reset", "-q"], cwd=wt)
     if a.demo_file:
         # demonstration on the unchanged tree first
         dst = os.path.join(wt, a.demo_pkg, "zz_seeded_demo_test.go")
